@@ -89,6 +89,7 @@ pub struct Mix {
     pub mating: u32,
     pub maxbatch: u32,
     pub sanamb: u32,
+    pub fewmovers: u32,
     /// probability (per 100) that a root is followed by a walk, and its maximal length
     pub walk_pct: u32,
     pub walk_len: u32,
@@ -101,15 +102,15 @@ pub struct Mix {
 impl Mix {
     pub const GENERAL: Mix = Mix {
         start960: 6, dfrc: 6, corpus: 10, scatter: 14, sound: 12, pins: 12, ep: 12, castle: 14, promo: 6, mating: 5,
-        maxbatch: 1, sanamb: 2, walk_pct: 35, walk_len: 60, null_pct: 8, clock_edge_pct: 15,
+        maxbatch: 1, sanamb: 2, fewmovers: 3, walk_pct: 35, walk_len: 60, null_pct: 8, clock_edge_pct: 15,
     };
     pub const HISTORIES: Mix = Mix {
         start960: 10, dfrc: 10, corpus: 10, scatter: 6, sound: 10, pins: 14, ep: 12, castle: 14, promo: 6, mating: 6,
-        maxbatch: 1, sanamb: 1, walk_pct: 90, walk_len: 120, null_pct: 15, clock_edge_pct: 20,
+        maxbatch: 1, sanamb: 1, fewmovers: 3, walk_pct: 90, walk_len: 120, null_pct: 15, clock_edge_pct: 20,
     };
     pub const ROOTS_ONLY: Mix = Mix {
         start960: 4, dfrc: 4, corpus: 12, scatter: 16, sound: 14, pins: 12, ep: 12, castle: 14, promo: 6, mating: 4,
-        maxbatch: 1, sanamb: 1, walk_pct: 10, walk_len: 20, null_pct: 5, clock_edge_pct: 10,
+        maxbatch: 1, sanamb: 1, fewmovers: 3, walk_pct: 10, walk_len: 20, null_pct: 5, clock_edge_pct: 10,
     };
 }
 
@@ -167,7 +168,7 @@ impl<'c> Driver<'c> {
     /// candidate (which is normal for scatter / lattice candidates).
     pub fn root(&self, cx: &mut Cx) -> Option<(Board, &'static str, &'static str)> {
         let m = &self.mix;
-        let ws = [m.start960, m.dfrc, m.corpus, m.scatter, m.sound, m.pins, m.ep, m.castle, m.promo, m.mating, m.maxbatch, m.sanamb];
+        let ws = [m.start960, m.dfrc, m.corpus, m.scatter, m.sound, m.pins, m.ep, m.castle, m.promo, m.mating, m.maxbatch, m.sanamb, m.fewmovers];
         let k = pick_weighted(cx, &ws);
         match k {
             0 => {
@@ -204,7 +205,8 @@ impl<'c> Driver<'c> {
                     8 => (gen::promo_case(&mut cx.rng), "promo-lattice"),
                     9 => (gen::mating_case(&mut cx.rng), "mating-net"),
                     10 => (gen::max_batch_case(&mut cx.rng), "max-batch"),
-                    _ => (gen::san_ambiguity_case(&mut cx.rng), "san-ambiguity"),
+                    11 => (gen::san_ambiguity_case(&mut cx.rng), "san-ambiguity"),
+                    _ => (gen::few_movers_case(&mut cx.rng), "few-movers"),
                 };
                 // both entry routes are used; which one hands out the board alternates
                 if cx.rng.chance(1, 2) {
